@@ -20,6 +20,8 @@ import (
 
 const verifUniverseSrc = `package u
 
+import "unsafe"
+
 type (
 	NInt   int
 	NInt8  int8
@@ -104,7 +106,7 @@ var (
 	t_any        interface{}
 	t_err        error
 	t_ifm        interface{ M() }
-	t_unsafe     uintptr
+	t_unsafe     unsafe.Pointer
 )
 `
 
